@@ -35,6 +35,19 @@ func init() {
 		lf.raw(favStrList("readHeader", favHeaderOrder(p, "ReadFavrec", "BinaryRead")))
 		// widths of the counters in that order
 		lf.natList("headerFieldWidths", favWireFields(p, "FavRaw", []string{"NBoards", "NLines", "NFolders"}))
+		// the temporary file of the two savers: the name renamed over .fav must be the one that was
+		// written, and its defining expression must contain a call of the random-suffix function
+		// (types.GetRandom), so that overlapping savers never share a temporary file.
+		pp := l.load("ptt")
+		for _, fn := range []struct {
+			pkg        *packages.Package
+			name, lean string
+		}{{pp, "WriteFavorites", "writeFavorites"}, {p, "Save", "save"}} {
+			random, writes, expr := favTmpName(fn.pkg, fn.name)
+			lf.raw(fmt.Sprintf("def %sTmpRandom : Bool := %v\n", fn.lean, random))
+			lf.raw(fmt.Sprintf("def %sWritesTmp : Bool := %v\n", fn.lean, writes))
+			lf.raw(fmt.Sprintf("def %sTmpExpr : String := %q\n\n", fn.lean, expr))
+		}
 		lf.write(out)
 	})
 }
@@ -141,4 +154,103 @@ func favHeaderOrder(p *packages.Package, fn, call string) []string {
 		fatal("fav: %s: no %s calls before the entry loop", fn, call)
 	}
 	return out
+}
+
+// favTmpName inspects a saver (function or method fn): the first argument of its os.Rename call is the
+// temporary name. random: the expressions defining that variable (transitively through local variables)
+// contain a call of GetRandom. writes: the same variable is what os.Create / os.WriteFile / os.OpenFile opens.
+// expr: the defining expressions, for the record.
+func favTmpName(p *packages.Package, fn string) (random, writes bool, expr string) {
+	var body *ast.BlockStmt
+	for _, f := range p.Syntax {
+		for _, d := range f.Decls {
+			if fd, ok := d.(*ast.FuncDecl); ok && fd.Name.Name == fn && fd.Body != nil {
+				body = fd.Body
+			}
+		}
+	}
+	if body == nil {
+		fatal("fav: no function %s in %s", fn, p.PkgPath)
+	}
+	isOS := func(ce *ast.CallExpr, names ...string) bool {
+		sel, ok := ce.Fun.(*ast.SelectorExpr)
+		if !ok {
+			return false
+		}
+		x, ok := sel.X.(*ast.Ident)
+		if !ok || x.Name != "os" {
+			return false
+		}
+		for _, n := range names {
+			if sel.Sel.Name == n {
+				return true
+			}
+		}
+		return false
+	}
+	var tmpVar string
+	nRename := 0
+	ast.Inspect(body, func(n ast.Node) bool {
+		if ce, ok := n.(*ast.CallExpr); ok && isOS(ce, "Rename") && len(ce.Args) == 2 {
+			nRename++
+			if id, ok := ce.Args[0].(*ast.Ident); ok {
+				tmpVar = id.Name
+			}
+		}
+		return true
+	})
+	if nRename != 1 || tmpVar == "" {
+		return false, false, fmt.Sprintf("(%d os.Rename calls, source not a variable)", nRename)
+	}
+	ast.Inspect(body, func(n ast.Node) bool {
+		if ce, ok := n.(*ast.CallExpr); ok && isOS(ce, "Create", "WriteFile", "OpenFile") && len(ce.Args) >= 1 {
+			if id, ok := ce.Args[0].(*ast.Ident); ok && id.Name == tmpVar {
+				writes = true
+			}
+		}
+		return true
+	})
+	vars := map[string]bool{tmpVar: true}
+	var exprs []string
+	seen := map[ast.Node]bool{}
+	for changed := true; changed; {
+		changed = false
+		ast.Inspect(body, func(n ast.Node) bool {
+			as, ok := n.(*ast.AssignStmt)
+			if !ok || seen[as] {
+				return true
+			}
+			hit := false
+			for _, l := range as.Lhs {
+				if id, ok := l.(*ast.Ident); ok && vars[id.Name] {
+					hit = true
+				}
+			}
+			if !hit {
+				return true
+			}
+			seen[as] = true
+			changed = true
+			for _, r := range as.Rhs {
+				exprs = append(exprs, types.ExprString(r))
+				ast.Inspect(r, func(m ast.Node) bool {
+					switch v := m.(type) {
+					case *ast.CallExpr:
+						if sel, ok := v.Fun.(*ast.SelectorExpr); ok && sel.Sel.Name == "GetRandom" {
+							random = true
+						}
+					case *ast.Ident:
+						if obj := p.TypesInfo.Uses[v]; obj != nil {
+							if _, isVar := obj.(*types.Var); isVar && obj.Parent() != p.Types.Scope() {
+								vars[v.Name] = true
+							}
+						}
+					}
+					return true
+				})
+			}
+			return true
+		})
+	}
+	return random, writes, strings.Join(exprs, " ; ")
 }
